@@ -69,6 +69,7 @@ func (d *DatasourceExecuting) Run(ctx ExecutionContext, produce ProduceFn, metaS
 			outChan: outChan,
 		}
 		for sc.Scan() {
+			verifTrace("scan")
 			data := make([]byte, len(sc.Bytes()))
 			copy(data, sc.Bytes())
 			job.lines = append(job.lines, line)
@@ -77,9 +78,12 @@ func (d *DatasourceExecuting) Run(ctx ExecutionContext, produce ProduceFn, metaS
 			if len(job.lines) == batchSize {
 				select {
 				case outChanAvailableTokens <- struct{}{}:
+					verifTrace("tok")
+					verifTrace("enq", verifLine0(job.lines), len(job.lines))
 					parserWorkReceiveChannel <- job
 					linesRead += len(job.lines)
 				case <-localCtx.Done():
+					verifTrace("rcancel")
 					return
 				}
 				job = jobIn{
@@ -93,16 +97,22 @@ func (d *DatasourceExecuting) Run(ctx ExecutionContext, produce ProduceFn, metaS
 
 			line++
 		}
+		verifTrace("eof")
 		if len(job.lines) > 0 {
 			select {
 			case outChanAvailableTokens <- struct{}{}:
+				verifTrace("tok")
+				verifTrace("enq", verifLine0(job.lines), len(job.lines))
 				parserWorkReceiveChannel <- job
 				linesRead += len(job.lines)
 			case <-localCtx.Done():
+				verifTrace("rcancel")
 				return
 			}
 		}
+		verifTrace("done", verifB(sc.Err() != nil))
 		done <- sc.Err()
+		verifTrace("rexit")
 	}()
 
 	var queue []*Record
@@ -112,10 +122,13 @@ produceLoop:
 	for {
 		select {
 		case outJobs := <-outChan:
+			verifTrace("recv", verifOutLine0(outJobs), len(outJobs))
+			verifTrace("tokrel")
 			<-outChanAvailableTokens
 			for i := range outJobs {
 				out := outJobs[i]
 				if err := out.err; err != nil {
+					verifTrace("parseerr", out.line)
 					return fmt.Errorf("couldn't parse line %d: %w", out.line+1 /*lines in OctoSQL start at zero*/, err)
 				}
 				for len(queue) <= out.line-startIndex {
@@ -125,16 +138,20 @@ produceLoop:
 				for len(queue) > 0 && queue[0] != nil {
 					record := queue[0]
 					if err := produce(ProduceFromExecutionContext(ctx), *record); err != nil {
+						verifTrace("produceerr")
 						return fmt.Errorf("couldn't produce: %w", err)
 					}
+					verifTrace("produce")
 					queue = queue[1:]
 					startIndex++
 				}
 			}
+			verifTrace("procend")
 			if fileReaderIsDone && startIndex == linesRead {
 				break produceLoop
 			}
 		case readerErr := <-done:
+			verifTrace("recvdone", verifB(readerErr != nil))
 			if readerErr != nil {
 				return readerErr
 			}
@@ -144,6 +161,7 @@ produceLoop:
 				break produceLoop
 			}
 		case <-ctx.Done():
+			verifTrace("ctx")
 			return ctx.Err()
 		}
 	}
